@@ -99,7 +99,7 @@ class _Listener:
         return 990
 
 
-def sync_loop(mx, jit, nconn, seed):
+def sync_loop(mx, jit, nconn, seed, nlisteners=1):
     """the real SyncWorker.run() over a scripted listener holding nconn pending connections"""
     from gunicorn.workers.sync import SyncWorker
     from gunicorn import util
@@ -118,16 +118,23 @@ def sync_loop(mx, jit, nconn, seed):
     finally:
         wbase.randint = old
     socks = [cdrv.FakeSock([b"GET /%d HTTP/1.1\r\nHost: h\r\n\r\n" % i]) for i in range(nconn)]
-    lst = _Listener(socks)
-    w.sockets = [lst]
+    if nlisteners == 1:
+        lsts = [_Listener(socks)]
+    else:
+        lsts = [_Listener(socks[k::nlisteners]) for k in range(nlisteners)]
+    lst = lsts[0]
+    w.sockets = lsts
     w.PIPE = [991, 992]
-    w.wait_fds = [lst, 991]
+    w.wait_fds = lsts + [991]
     w.notify = lambda: None
     w.ppid = os.getppid()
     old_select, old_coe = _select.select, util.close_on_exec
     state = {"idle": 0}
 
     def fake_select(r, wl, x, t=None):
+        ready = [l for l in lsts if l.conns]
+        if ready and nlisteners > 1:
+            return (ready, [], [])
         # nothing pending: the loop would sleep; after two idle rounds stop the worker (parent check)
         state["idle"] += 1
         if state["idle"] > 2:
@@ -141,13 +148,14 @@ def sync_loop(mx, jit, nconn, seed):
         _select.select = old_select
         util.close_on_exec = old_coe
     ev = []
-    for s in socks[:lst.accepted]:
+    accepted = sum(l.accepted for l in lsts)
+    for s in [x for x in socks if x.nrecv > 0 or x.wire]:
         ok = bytes(s.wire).startswith(b"HTTP/1.1 200 OK") and bytes(s.wire).endswith(b"ok") and s.closed
         ev.append({"e": "resp", "ok": bool(ok), "pid": 1})
-    recycled = mx > 0 and lst.accepted < nconn
+    recycled = mx > 0 and accepted < nconn
     ev.append({"e": "end", "alive": [2] if recycled else [1], "initial": [1]})
     return {"max": mx, "jit": jit, "allow": 0, "workers": 1, "npids": 2, "initial": [1], "ev": ev}, \
-        {"where": "syncloop", "limit": w.max_requests, "accepted": lst.accepted, "nconn": nconn}
+        {"where": "syncloop%d" % nlisteners, "limit": w.max_requests, "accepted": accepted, "nconn": nconn}
 
 
 # ---------------------------------------------------------------------------------------------
@@ -223,9 +231,10 @@ def c18(ctx):
                 metas.append(m)
     for mx in (0, 1, 2, 3, 7):
         for jit in (0, 2):
-            t, m = sync_loop(mx, jit, 12, rng.randrange(10 ** 6))
-            traces.append(t)
-            metas.append(m)
+            for nl in (1, 2, 3):
+                t, m = sync_loop(mx, jit, 12, rng.randrange(10 ** 6), nlisteners=nl)
+                traces.append(t)
+                metas.append(m)
     plan = [("sync", 3, 0, "seq", 14), ("gthread", 3, 0, "seq", 14), ("gevent", 3, 0, "seq", 14), ("sync", 0, 0, "seq", 10)]
     if not ctx.quick:
         plan += [(wk, mx, jit, mode, 24) for wk in ("sync", "gthread", "gevent", "eventlet")
